@@ -149,6 +149,9 @@ func (p *Program) genVC(con *Contract, sorts map[string]string) (vc *VC, err err
 				if comp == "alloc" {
 					continue
 				}
+				if comp == ghLastRecv {
+					continue // volatile, outside every frame
+				}
 				if hasReads && strings.HasPrefix(comp, "GH.") {
 					continue // byte counters of the readers named by reads(...) and of their tee chains
 				}
